@@ -13,12 +13,12 @@ from harness.core import CaseResult, hit, rng_for
 
 RULE = ('operation sequences (write, set_timestamp, increment_attempts, set_recipients_delivered [single round per message, '
         'indexes in range, passed as a set like the queue does or as a list], get, remove, load) of length <= 40 over <= 5 '
-        'messages, weighted towards valid ops plus a stream of ops on removed ids, run on each of the four backends '
+        'messages, weighted towards valid ops plus a stream of ops on removed ids, run on each of the four backends (the dict backend also over real shelves, as its documentation suggests) '
         'sequentially and (for yielding backends) with ops on different ids overlapped in greenlets; ids abstracted to '
         'write order. distinct = distinct (backend, op sequence, overlap); non-trivial = at least one write.')
 
 BUDGET_S = {'quick': 150, 'thorough': 1500}
-BACKENDS = ['dict', 'disk', 'redis', 'cloud']
+BACKENDS = ['dict', 'disk', 'redis', 'cloud', 'shelve']
 _REDIS = {}
 
 
@@ -82,7 +82,7 @@ def cases(tier, seed, phase):
             def mk(j=j, b=b):
                 rng = rng_for(seed, 'c15', j)
                 ops = gen_ops(rng, rng.randint(4, 40), malformed=(j % 5 == 0))
-                return {'backend': b, 'ops': ops, 'overlap': (j % 4 == 1) and b != 'dict', 'orphans': 3 if (b == 'disk' and j % 3 == 0) else 0}
+                return {'backend': b, 'ops': ops, 'overlap': (j % 4 == 1) and b not in ('dict', 'shelve'), 'orphans': 3 if (b == 'disk' and j % 3 == 0) else 0}
             yield mk
 
 
@@ -93,6 +93,14 @@ class Backend(object):
         if name == 'dict':
             from slimta.queue.dict import DictStorage
             self.store = DictStorage()
+        elif name == 'shelve':
+            # the dict backend over two real shelves, the persistent configuration its documentation names: every lookup returns
+            # a fresh unpickled copy, so an update that is not written back is lost
+            import shelve
+            from slimta.queue.dict import DictStorage
+            self.tmp = tempfile.mkdtemp(prefix='verif_c15_')
+            self.shelves = [shelve.open(os.path.join(self.tmp, 'env')), shelve.open(os.path.join(self.tmp, 'meta'))]
+            self.store = DictStorage(self.shelves[0], self.shelves[1])
         elif name == 'disk':
             from slimta.diskstorage import DiskStorage
             self.tmp = tempfile.mkdtemp(prefix='verif_c15_')
@@ -114,6 +122,11 @@ class Backend(object):
             self.store = CloudStorage(FakeObjectStore(yield_each=lambda: gevent.sleep(0)))
 
     def close(self):
+        for sh in getattr(self, 'shelves', []):
+            try:
+                sh.close()
+            except Exception:
+                pass
         if self.tmp:
             shutil.rmtree(self.tmp, ignore_errors=True)
         if self.name == 'redis':
@@ -313,7 +326,7 @@ def run_case(case, model):
                             pass
                     gs = [gevent.spawn(do_op, be, ops[k], ids, rev) for k in phase]
                     # spawned after them: the scans start when the operations yield for the first time, in the middle of their work
-                    sgs = [gevent.spawn(scan) for _ in range(3)] if case['backend'] != 'dict' else []
+                    sgs = [gevent.spawn(scan) for _ in range(3)] if case['backend'] not in ('dict', 'shelve') else []
                     gevent.joinall(gs)
                     gevent.joinall(sgs)
                     for k, g in zip(phase, gs):
@@ -321,7 +334,7 @@ def run_case(case, model):
                 n = phase[-1] + 1
     finally:
         be.close()
-    kind = {'dict': 'inplace', 'redis': 'redis'}.get(case['backend'], 'accum')
+    kind = {'dict': 'inplace', 'shelve': 'inplace', 'redis': 'redis'}.get(case['backend'], 'accum')
     mouts = model.ask(model_line(ops, kind)).split(';')
     mref = model.ask(model_line(ops, 'inplace')).split(';')
     # ops that update a message which is no longer there: the contract does not say how they answer
